@@ -25,7 +25,7 @@ import (
 // a function call; both are exercised by the self-test.
 // ---------------------------------------------------------------------------
 
-const maxClients = 16
+const maxClients = 48
 
 type schedState struct {
 	turn     int32 // client holding the token; -1 = nobody
